@@ -78,6 +78,8 @@ fn check_getter(ctx: &mut Ctx, arena: &Arena, region: &[u8], kind: u32, want: Op
     };
     let recs = {
         let mut b = Bat::new(ctx, p);
+        // derived-arithmetic accessors are called only where their operands do not overflow (DESIGN 6)
+        b.derived = want.map_or(true, |off| decode::derived_ok(kind, &region[off..]));
         battery::getter_level(&mut b, kind, &bi, p, OPTS);
         b.recs
     };
